@@ -78,6 +78,7 @@ def xiy_pow_times_rho(m, t):
 
 
 class Harmonics:
+    fp = True  # also sampled on the unmodified float64 code (bounded stand-in for rounding)
     function = "gbasis.spherical.generate_transformation"
     tol = 1e-10
 
